@@ -96,6 +96,67 @@ def data_table(p, place, np_):
     return tab
 
 
+def unspecified_elements(p):
+    """elements of D whose final content the dataflow does not define: the element feeds a written flow in place and that
+    flow has a (necessarily unique) writing successor — when the successor is local it keeps working in the same memory,
+    when it is remote it works on a copy.  They are masked ('*') in the observations of both sides."""
+    un = set()
+    for t in jdfgen.instances(p):
+        c = p.classes[t[0]]
+        se = jdfgen.succ_edges(p, t)
+        for fi, d, x in mem_refs(p, t):
+            if d == 'in' and c.flows[fi].mode in ('W', 'B'):
+                if any(e[0] == fi and p.classes[e[1][0]].flows[e[2]].mode in ('W', 'B') for e in se):
+                    un.add(x)
+    return un
+
+
+def value_hazards(p):
+    """[(producer instance, flow, reason)]: places where the VALUE a consumer reads could depend on the schedule or on
+    the distribution, because local successors share the producer's data copy and RW flows work in place.  Rule: a
+    successor whose flow is written (RW/WRITE) must be the only consumer of the producer's flow — no other successor,
+    no write-back `-> D(x)` (an asynchronous memcpy by the communication thread) — and the producer's flow must itself be
+    a written flow (so that the copy is exclusively its own)."""
+    bad = []
+    for t in jdfgen.instances(p):
+        c = p.classes[t[0]]
+        se = jdfgen.succ_edges(p, t)
+        mo = {fi for fi, d, x in mem_refs(p, t) if d == 'out'}
+        for fi in sorted({e[0] for e in se}):
+            es = [e for e in se if e[0] == fi]
+            wr = [e for e in es if p.classes[e[1][0]].flows[e[2]].mode in ('W', 'B')]
+            if not wr:
+                continue
+            if len(es) > 1:
+                bad.append((t, fi, "several consumers, one of them writes", wr))
+            elif fi in mo:
+                bad.append((t, fi, "write-back and a writing consumer", wr))
+            elif c.flows[fi].mode not in ('W', 'B'):
+                bad.append((t, fi, "a forwarded READ flow has a writing consumer", wr))
+    return bad
+
+
+def make_value_safe(p):
+    """repair a generated program in place (dependency structure unchanged): drop the write-back of a flow whose only
+    consumer writes, otherwise turn the writing consumer's flow into a READ flow (and drop ITS write-backs)"""
+    for _ in range(12):
+        hz = value_hazards(p)
+        if not hz:
+            return True
+        t, fi, why, wr = hz[0]
+        c = p.classes[t[0]]
+        if why.startswith("write-back"):
+            c.flows[fi].deps = [d for d in c.flows[fi].deps if d.din or not (d.then[0] == 'M' or (d.els is not None and d.els[0] == 'M'))]
+        else:
+            for e in wr:
+                f = p.classes[e[1][0]].flows[e[2]]
+                if f.mode == 'W':
+                    return False
+                f.mode = 'R'
+                f.deps = [d for d in f.deps if d.din or not (d.then[0] == 'M' or (d.els is not None and d.els[0] == 'M'))]
+    return not value_hazards(p)
+
+
 def reads_new(p):
     """some instance READS a NEW tile (its content is whatever the arena holds): values unpredictable"""
     for t in jdfgen.instances(p):
@@ -103,7 +164,7 @@ def reads_new(p):
         c = p.classes[ci]
         env = jdfgen.complete(p.gvals, c, ps)
         for f in c.flows:
-            if f.mode != 'B':
+            if f.mode not in ('B', 'R'):
                 continue
             for d in f.deps:
                 if d.din:
@@ -197,9 +258,13 @@ def seq_exec(p):
             else:
                 outv[(t, fi)] = 0
         for fi, d, x in mem_refs(p, t):
-            if d == 'out' and 0 <= x < p.ndata:
+            # `-> D(x)` copies the flow back; a written flow fed by `<- D(x)` works in place on the element
+            if 0 <= x < p.ndata and (d == 'out' or c.flows[fi].mode in ('W', 'B')):
                 data[x] = outv[(t, fi)]
         res[t] = (reads, writes)
+    for x in unspecified_elements(p):
+        if 0 <= x < p.ndata:
+            data[x] = '*'
     return res, data
 
 
@@ -402,13 +467,15 @@ def gen_dist_program(rng, template=None, max_inst=60):
         p = jdfgen.gen_program(rng, t, max_inst=max_inst)
         if p.template.endswith("fallback") and t != "chain":
             continue
-        if reads_new(p) or not mem_private(p):
+        if not make_value_safe(p) or not jdfgen.wf(p) or reads_new(p) or not mem_private(p):
             continue
         if any(len(c.params) > 3 for c in p.classes) or any(len(c.flows) > 8 for c in p.classes):
             continue
         return p
-    p = jdfgen.gen_program(rng, "chain", max_inst=max_inst, rich=False)
-    return p
+    while True:
+        p = jdfgen.gen_program(rng, "chain", max_inst=max_inst, rich=False)
+        if make_value_safe(p) and not reads_new(p) and mem_private(p):
+            return p
 
 
 if __name__ == "__main__":
